@@ -13,6 +13,7 @@
 -/
 import PyGqlModel.Props.C06_overlap_memo_complete
 import PyGqlModel.Lemmas.ValidateOverlapMemoChain
+import PyGqlModel.Lemmas.ValidateChainParEq
 namespace PyGql.Props.C06
 open PyGql PyGql.Validate PyGql.Validate.Spec
 
@@ -102,5 +103,11 @@ theorem runM_alone_eq (s : SchemaD) (fx : Fixes) (h7 : fx.v7 = true) (d : Doc) (
   have : countOf ({ ({} : RS) with octx := { ({} : OCtx) with frags := fragTable d } } : RS).errs ovRule = 0 := rfl
   rw [this] at a3
   rw [a3]
+
+/-- **the parametrised chain is the chain of the theorems** when given the rules' own enter function: the only
+    difference between the model the driver runs (`runM`) and the chain the per-rule theorems are stated about (`run`) is
+    the overlap rule's search -/
+theorem chain_par_is_chain (c : Cfg) (d : Doc) : visitDocumentPar enterRule c d {} = visitDocument c d {} :=
+  visitDocumentPar_eq c d {}
 
 end PyGql.Props.C06
